@@ -122,6 +122,24 @@ def check(ctx):
                   "collect_component_removals:reads-React<C>", "%s:%d" % (coll.file, coll.line), "reads RemovedComponents<React<C>>",
                   "collector reads %s" % rparam)
 
+        # the collector reports only this poll's removals: the reused buffer is cleared before reading, and only
+        # entities produced by RemovedComponents::read are pushed
+        clr = [b for b, t, fr in coll.iter_calls() if fr and lib.tail(mir.fn_name(fr), 2) == "Vec::clear"]
+        rd = [b for b, t, fr in coll.iter_calls() if fr and lib.tail(mir.fn_name(fr), 2) == "RemovedComponents::read"]
+        pushes = []
+        for bd in [coll] + prog.closures_of(coll):
+            for b, t, fr in bd.iter_calls():
+                if fr and lib.tail(mir.fn_name(fr), 2) in ("Vec::push", "Vec::extend", "Vec::insert"):
+                    pushes.append((bd, b, t))
+        okc = len(rd) == 1 and bool(clr) and all(coll.dominates(c, rd[0]) for c in clr[:1])
+        okp = bool(pushes) and all(bd is not coll and all(o[0] == "arg" and o[1] == 2 for o in origins(bd, t["args"][1])) for bd, b, t in pushes)
+        ctx.check(okc and okp, "C08.b", "collect_component_removals:fresh-buffer-per-poll", "%s:%d" % (coll.file, coll.line),
+                  "buffer.clear() dominates removed.read(); only the iterator's entities are pushed",
+                  "the removal collector does not clear its reused buffer before reading (entities of an earlier poll would be reported again) or pushes something else")
+        rets = [st for b, i, st in coll.iter_stmts() if st["k"] == "assign" and st["place"]["l"] == 0 and not st["place"]["p"]]
+        ctx.check(len(rets) == 1 and "use" in rets[0]["rv"] and all(o[0] == "arg" and o[1] == 1 for o in origins(coll, rets[0]["rv"]["use"])), "C08.b",
+                  "collect_component_removals:returns-the-filled-buffer", "%s:%d" % (coll.file, coll.line), "", "the collector does not return the buffer it filled")
+
     # ---- C08.c despawn tracker ----
     try:
         rdr = A.free_fn(prog, "register_despawn_reactor")
@@ -169,6 +187,20 @@ def check(ctx):
                   "Drop for DespawnTracker sends %s times / not self.parent" % sorted(cnt))
     except (mir.AnchorLost, StopIteration) as e:
         ctx.fail("C08.c", "anchor-lost:despawn-tracker", "", str(e))
+    try:
+        dflt = A.trait_method(prog, "ReactCache", "Default", "default")
+        ctx.touch(dflt)
+        ok, det = lib.channel_pairing(dflt, "ReactCache", "despawn_sender", "despawn_receiver")
+        ctx.check(ok, "C08.c", "ReactCache::default:despawn-channel-paired", "%s:%d" % (dflt.file, dflt.line),
+                  "despawn_sender and despawn_receiver are the two ends of one channel", "the despawn sender and receiver are not the two ends of the same channel (%s)" % det)
+        ds = A.method(prog, "ReactCache", "despawn_sender")
+        cl = [lib.tail(n, 2) for b, t, n, ch in lib.field_method_calls(ds, "ReactCache", "despawn_sender")]
+        ctx.check(cl in (["Sender::clone"], ["Clone::clone"]), "C08.c", "ReactCache::despawn_sender:clones-own-sender", "%s:%d" % (ds.file, ds.line), "", "despawn_sender() does not return a clone of the cache's own sender: %s" % cl)
+        sdr = A.method(prog, "ReactCache", "schedule_despawn_reactions")
+        rc = [lib.tail(n, 2) for b, t, n, ch in lib.field_method_calls(sdr, "ReactCache", "despawn_receiver")]
+        ctx.check(rc == ["Receiver::try_recv"], "C08.c", "schedule_despawn_reactions:reads-own-receiver", "%s:%d" % (sdr.file, sdr.line), "", "schedule_despawn_reactions reads %s" % rc)
+    except mir.AnchorLost as e:
+        ctx.fail("C08.c", "anchor-lost:despawn channel", "", str(e))
     try:
         sd = A.method(prog, "ReactCache", "schedule_despawn_reactions")
         ops = [lib.tail(n, 2) for b, t, n, ch in lib.field_method_calls(sd, "ReactCache", "despawn_reactors")]
